@@ -26,6 +26,18 @@ CHECKS = {
    text="The monitor computes the true number of outstanding holds, queued requests and busy keys from events and compares them with every reply's LCount/LRCount and with STATE after every step; after the drain suffix everything must be zero and the in-package census (holder/wait queues, both wheels, long tables) must be empty."),
 }
 
+import sys, glob, importlib
+sys.path.insert(0, VERIF); sys.path.insert(0, os.path.join(VERIF, "lib"))
+ENGINES_EXTRA = []
+for f in sorted(glob.glob(os.path.join(VERIF, "checks", "*.py"))):
+    name = os.path.basename(f)[:-3]
+    if name.startswith("_") or name == "lockfam":
+        continue
+    mod = importlib.import_module("checks." + name)
+    for pid, ent in getattr(mod, "MANIFEST", {}).items():
+        CHECKS[pid] = ent
+    ENGINES_EXTRA += getattr(mod, "ENGINES", [])
+
 def cmd(pid, tier):
     return f"bin/check {pid} {tier}"
 
@@ -52,7 +64,7 @@ manifest = {
  "engines": [
    {"name": "S", "path": "harness/inpkg/server/zz_verif_s_test.go", "serves_properties": ["C01", "C02", "C03", "C04", "C05", "C06", "C17"],
     "kind_free_text": "sequential in-package replay of TLC-generated and seeded histories on the real LockDB with a virtual clock; ndjson traces validated by TLC"},
- ],
+ ] + ENGINES_EXTRA,
  "checks": checks,
  "not_applicable": [{"property_id": p, "reason": r} for p, r in NA.items()],
  "notes": "All verdicts come from TLC validating traces of the real code against TLA+ monitors (spec/mon) or from TLC-generated behaviours replayed on the real code; TLC counterexamples on the design models are never verdicts. Exit 2 = infrastructure problem.",
